@@ -23,8 +23,8 @@ MANIFEST = {
             "interleaved with acknowledgement processing, the packet numbers of built packets are strictly increasing (under the tx.rs "
             "guard discipline; without it a counterexample is proved); for all pn, largest_acked < 2^62 with pn - largest_acked < 2^31 and "
             "every expected in [largest_acked, pn], PacketNumber::encode does not panic and decoding what is written on the wire gives pn "
-            "(also for delayed packets within 2^15); the bound 2^31 is exact. The statement is refuted for the in-memory U24 value "
-            "(finding F31: payload not reduced to 24 bits). Models tied to the Rust by streams `pn` (exhaustive around width boundaries, "
+            "(also for delayed packets within 2^15), and so does decoding the in-memory value returned by encode (full strength since the "
+            "fix of F31, U24 payload reduced to 24 bits); the bound 2^31 is exact. Models tied to the Rust by streams `pn` (exhaustive around width boundaries, "
             "random triples up to 2^62, arbitrary decode inputs) and `journal`.",
     "note": "Trusted: Coq kernel, extraction, OCaml driver, Rust harness, Python generators/oracle. The tx.rs discipline is a hypothesis, "
             "not derived from the Package implementations. Nonce uniqueness follows from number uniqueness only per key; key handling is C06.",
@@ -65,7 +65,7 @@ def pn_oracle(case, obs):
             if pn < U62 and J.rfc_decode(w, xw, exp) != pn:
                 return "rfcdecode: op %d RFC A.3 reference decodes (%d,%d) at %d to %d, not %d" % (k, w, xw, exp, J.rfc_decode(w, xw, exp), pn)
             if direct != pn:
-                return "direct-u24: op %d decode of the in-memory value U%d(%d) at expected %d gives %s, pn is %d" % (k, 8 * w, x, exp, direct, pn)
+                return "direct: op %d decode of the in-memory value U%d(%d) at expected %d gives %s, pn is %d" % (k, 8 * w, x, exp, direct, pn)
         elif tag == 1:
             w, x, exp = args
             if exp < U62 - 2**33 and x < 2**(8 * w):
@@ -73,12 +73,6 @@ def pn_oracle(case, obs):
                     return "decpanic: op %d decode U%d(%d) at %d panicked" % (k, 8 * w, x, exp)
                 if v[1] != J.rfc_decode(w, x, exp):
                     return "decref: op %d decode U%d(%d) at %d = %d, RFC A.3 gives %d" % (k, 8 * w, x, exp, v[1], J.rfc_decode(w, x, exp))
-    return None
-
-
-def pn_classify(case, msg, obs):
-    if msg.startswith("direct-u24:") and "U24(" in msg:
-        return "F31"
     return None
 
 
@@ -188,7 +182,7 @@ def journal_oracle(case, obs):
 STREAMS = [
     {"name": "pn", "pkg": "hb", "bin": "impl_pn",
      "gen": pn_gen, "oracle": pn_oracle, "nontrivial": pn_nontrivial, "hist": pn_hist, "mutate": pn_mutate,
-     "classify": pn_classify, "profiles": ("debug",), "profiles_thorough": ("debug",), "rule": RULE},
+     "profiles": ("debug",), "profiles_thorough": ("debug",), "rule": RULE},
     {"name": "journal", "pkg": "hr", "bin": "impl_journal",
      "gen": J.gen, "oracle": journal_oracle, "nontrivial": J.nontrivial, "hist": J.hist, "mutate": J.mutate,
      "profiles": ("debug",), "profiles_thorough": ("debug",), "rule": RULE},
